@@ -4,7 +4,7 @@ From Coq Require Import List NArith ZArith.
 From BLB Require Import Lib.LTS Raft.Core Raft.Wire Raft.Legit Raft.NodeProofs Raft.NodeElect Raft.NodeMono Raft.Election
      Raft.LogMatchLists Raft.LogMatch Raft.LogMatchNodeS Raft.CompletenessCommit Raft.SnapContig Raft.SnapContigSys Raft.SnapSystem
      C07.A_Witness C07.A_Repaired C07.A_Proofs C07.A_Wedge C07.A_NoFatal C07.A_Restart C07.A_Vote C07.A_RestartExample C07.A_FsmMember.
-From BLB Require Raft.MemberVotes Raft.MemberRun Raft.MemberSnapSystemU C07.A_VoteC.
+From BLB Require Raft.MemberVotes Raft.MemberRun Raft.MemberSnapSystemU C07.A_VoteC C07.A_NoFatalC.
 Import ListNotations.
 Open Scope N_scope.
 
@@ -238,3 +238,25 @@ Theorem vote_respects_snapshot_combined :
       sn_term m < lt \/ (lt = sn_term m /\ sn_index m <= li).
 Proof. exact C07.A_VoteC.vote_respects_snapshot_combined_lemma. Qed.
 Print Assumptions vote_respects_snapshot_combined.
+
+(* [PARTIAL] part A, no_fatal_on_same_term_leader_message, over the combined alphabet cstep. In every reachable state, when a node X that is Leader faces an AppEnts or InstallSnapshot of its own term in the soup, X is recorded as leader of that term, every node ever recorded as leader of that term is X (election_safety_combined), and the leader-log record of the run invariant that backs the message belongs to X. So such a message never comes from ANOTHER leader. Missing for unreachability of the Fatalf leader-got-append: the soup invariant that the sender of an AppEnts or InstallSnapshot is the owner of its record and never its addressee, which is not a field of MSI, EM or ginvM *)
+Theorem no_fatal_on_same_term_leader_message_partial :
+  forall bm be, NoDup bm ->
+  forall a0 a sched, Raft.MemberRun.minitS a0 -> run Raft.MemberVotes.asys sys_event (Raft.MemberSnapSystemU.cstep bm be) a0 sched a ->
+    forall X m, In X (sy_nodes (fst a)) -> n_role X = Leader -> In m (sy_soup (fst a)) -> C07.A_NoFatalC.leader_traffic m ->
+      m_term m = p_term (n_p X) ->
+      In (m_term m, n_id X) (sy_hist (fst a)) /\
+      (forall j, In (m_term m, j) (sy_hist (fst a)) -> j = n_id X) /\
+      (exists (G : list Raft.LogMatch.lrec) i l, In (m_term m, i, l) G /\ i = n_id X).
+Proof. exact C07.A_NoFatalC.same_term_leader_message_lemma. Qed.
+Print Assumptions no_fatal_on_same_term_leader_message_partial.
+
+(* [FULL] part A, no_fatal_on_response_above_term for granted vote responses, over the combined alphabet cstep. In every reachable state a granted VoteResp in the soup carries a term that is at most the durable term of its addressee (it answers a VoteReq of that term which the addressee sent), so HandleMsg never takes the Fatalf branch for a response above the own term on it. For refused VoteResp and for AppEntsResp the corresponding soup invariant is not exported by C02 (e_mterm bounds a message by its sender's term) *)
+Theorem no_fatal_on_granted_vote_response_above_term :
+  forall bm be, NoDup bm ->
+  forall a0 a sched, Raft.MemberRun.minitS a0 -> run Raft.MemberVotes.asys sys_event (Raft.MemberSnapSystemU.cstep bm be) a0 sched a ->
+    forall r X, In r (sy_soup (fst a)) -> m_body r = VoteResp true ->
+      get_node (m_to r) (sy_nodes (fst a)) = Some X ->
+      m_term r <= p_term (n_p X).
+Proof. exact C07.A_NoFatalC.granted_vote_response_term_lemma. Qed.
+Print Assumptions no_fatal_on_granted_vote_response_above_term.
